@@ -46,7 +46,7 @@ func closureCells(E *Effects, g *ssa.Function, mc *ssa.MakeClosure) ([]cell, []s
 				per = true
 			}
 		}
-		cells = append(cells, cell{path: p, perIter: per, write: write, in: in, idxVals: indexValues(addr)})
+		cells = append(cells, cell{path: p, perIter: per, write: write, in: in, idxVals: indexValues(addr), idxCells: idxCells})
 	}
 	eachInstr(g, func(_ *ssa.BasicBlock, _ int, in ssa.Instruction) {
 		switch x := in.(type) {
@@ -64,6 +64,12 @@ func closureCells(E *Effects, g *ssa.Function, mc *ssa.MakeClosure) ([]cell, []s
 				addCell(c.Args[0], true, in)
 			}
 			for _, callee := range E.P.Callees(x) {
+				// a helper whose accesses can be expressed in the closure's own terms
+				// (parameters replaced by the arguments) is analysed as if inlined
+				if inl, ok := inlinedCells(E, g, x, callee, 0); ok {
+					cells = append(cells, inl...)
+					continue
+				}
 				for r, pos := range E.Writes(callee) {
 					for _, m := range E.mapRoot(g, x, callee, r) {
 						switch {
@@ -352,7 +358,7 @@ func shortCell(p string) string {
 
 // perIterationOK validates the per-iteration index idiom of write cell w.
 func perIterationOK(fn *ssa.Function, fc *fanClosure, w cell) string {
-	_, idxCells := cellPath(addrOf(w.in))
+	idxCells := w.idxCells
 	for _, a := range idxCells {
 		if a.Parent() == fc.fn {
 			continue
@@ -662,4 +668,113 @@ func c08R6(c *Ctx) {
 			})
 		}
 	}
+}
+
+// inlinedCells expresses the memory accesses of callee (called at site from
+// fn) in fn's terms by substituting the callee's parameters with the call's
+// arguments. ok=false when the callee does something that cannot be expressed
+// this way (writes through values of unknown origin, or calls further servitor
+// functions that write caller-visible memory and cannot themselves be inlined).
+func inlinedCells(E *Effects, fn *ssa.Function, site ssa.CallInstruction, callee *ssa.Function, depth int) ([]cell, bool) {
+	if depth > 2 || !E.P.IsServitorFunc(callee) || len(callee.Blocks) == 0 || callee.Parent() != nil {
+		return nil, false
+	}
+	cc := site.Common()
+	args := cc.Args
+	if cc.IsInvoke() {
+		return nil, false
+	}
+	if len(args) != len(callee.Params) {
+		return nil, false
+	}
+	// substitution tables
+	baseSub := map[string]string{}
+	idxSub := map[string]string{}
+	idxCellsOf := map[string][]*ssa.Alloc{}
+	for i, p := range callee.Params {
+		key := "param:" + callee.String() + ":" + p.Name()
+		bp, _ := cellPath(args[i])
+		baseSub[key] = bp
+		var ic []*ssa.Alloc
+		idxSub["@"+key] = idx(args[i], &ic)
+		idxCellsOf["@"+key] = ic
+	}
+	var out []cell
+	okAll := true
+	add := func(addr ssa.Value, write bool, in ssa.Instruction) {
+		root := rootAddr(addr)
+		if a, ok := root.(*ssa.Alloc); ok && a.Parent() == callee && !throughLoad(addr) {
+			return // callee-local
+		}
+		if isSyncType(deref(addr.Type())) {
+			return
+		}
+		p, idxCells := cellPath(addr)
+		per := false
+		var cellsFromArgs []*ssa.Alloc
+		for k, v := range idxSub {
+			if strings.Contains(p, "["+k+"]") {
+				p = strings.ReplaceAll(p, "["+k+"]", "["+v+"]")
+				cellsFromArgs = append(cellsFromArgs, idxCellsOf[k]...)
+			}
+		}
+		replaced := false
+		for k, v := range baseSub {
+			if strings.HasPrefix(p, k) {
+				p = v + p[len(k):]
+				replaced = true
+			}
+		}
+		if !replaced && !strings.HasPrefix(p, "global:") {
+			if strings.HasPrefix(p, "cell:"+callee.String()) {
+				return // a local of the callee reached through a load: private
+			}
+			okAll = false
+			return
+		}
+		for _, a := range append(idxCells, cellsFromArgs...) {
+			if a.Parent() != fn {
+				per = true
+			}
+		}
+		var vals []ssa.Value
+		allIdx := append(append([]*ssa.Alloc{}, idxCells...), cellsFromArgs...)
+		for _, a := range allIdx {
+			if sts := storesToAlloc(a); len(sts) == 1 {
+				vals = append(vals, sts[0].Val)
+			}
+		}
+		out = append(out, cell{path: p, perIter: per, write: write, in: site.(ssa.Instruction), idxVals: vals, idxCells: allIdx})
+	}
+	eachInstr(callee, func(_ *ssa.BasicBlock, _ int, in ssa.Instruction) {
+		switch x := in.(type) {
+		case *ssa.Store:
+			add(x.Addr, true, in)
+		case *ssa.UnOp:
+			if x.Op == token.MUL {
+				add(x.X, false, in)
+			}
+		case *ssa.MapUpdate:
+			add(x.Map, true, in)
+		case ssa.CallInstruction:
+			c2 := x.Common()
+			if b, ok := c2.Value.(*ssa.Builtin); ok && (b.Name() == "copy" || b.Name() == "delete" || b.Name() == "clear") {
+				add(c2.Args[0], true, in)
+			}
+			for _, g2 := range E.P.Callees(x) {
+				visible := false
+				for r := range E.Writes(g2) {
+					for _, m := range E.mapRoot(callee, x, g2, r) {
+						if m != "local" && m != "unknown" {
+							visible = true
+						}
+					}
+				}
+				if visible {
+					okAll = false
+				}
+			}
+		}
+	})
+	return out, okAll
 }
